@@ -31,7 +31,7 @@ theorem simplifyFlat_sp (hs : SimpOK p) {e : Exp α} (he : allLits p e = true) (
     SpAt (Rel N p) s (simplifyFlat e) (fun x => allLits p x = true) := by
   unfold simplifyFlat
   split
-  · exact SpAt.fail
+  · exact SpAt.fail (rel_isPre _ _) trivial
   · rename_i f hf
     exact SpAt.pure (rel_isPre _ _) (normalizeExp_ok hs he hf)
 
@@ -40,13 +40,13 @@ theorem emitConstraint_sp (hN : N "") (hp : Closed p) (hs : SimpOK p) {lhs rhs :
     SpAt (Rel N p) s (emitConstraint lhs cmp rhs name) (fun _ => True) := by
   unfold emitConstraint
   split
-  · exact SpAt.fail
+  · exact SpAt.fail (rel_isPre _ _) trivial
   · rename_i fl hfl
     have hfl' : allLits p fl = true :=
       normalizeExp_ok hs (by simp [allLits, hl, hr]) hfl
     refine SpAt.bind (rel_isPre _ _) ((linExp_block hN hp).1 _ _ hfl' s) ?_
     intro v hv s1
-    refine SpAt.modify (Rel.of_domain_eq rfl ?_) trivial
+    refine SpAt.modify (Rel.of_domain_eq rfl rfl ?_) trivial
     intro hok
     refine ⟨hok.1, ?_⟩
     intro r hr'
@@ -233,17 +233,38 @@ theorem bind_ok {x : M α β} {f : β → M α γ} {s s' : St α} {c : γ} (h : 
   | error e => rw [hx] at h; cases h
   | ok q => obtain ⟨a, s1⟩ := q; rw [hx] at h; exact ⟨a, s1, rfl, h⟩
 
+omit hN hp hs in
+theorem bind_error {x : M α β} {f : β → M α γ} {s : St α} {err : LinErr} (h : (x >>= f) s = .error err) :
+    x s = .error err ∨ ∃ a s1, x s = .ok (a, s1) ∧ f a s1 = .error err := by
+  rw [bind_run] at h
+  cases hx : x s with
+  | error e =>
+    rw [hx] at h
+    have h' : (Except.error e : Except LinErr (γ × St α)) = .error err := h
+    injection h' with h'
+    left; rw [h']
+  | ok q => obtain ⟨a, s1⟩ := q; rw [hx] at h; exact Or.inr ⟨a, s1, rfl, h⟩
+
 /-- like `SpAt`, for the loop: the program may rely on the invariant `StOK` of its start state. -/
 def SpI (N : String → Prop) (p : α → Bool) (s : St α) (x : M α Unit) : Prop :=
-  StOK N p s → ∀ s', x s = .ok ((), s') → Rel N p s s'
+  StOK N p s → (∀ s', x s = .ok ((), s') → Rel N p s s') ∧
+    (∀ err, x s = .error err → ∃ s', Rel N p s s' ∧ ErrOK s' err)
 
 omit hN hp hs in
 theorem SpI.of_bind {s : St α} {x : M α β} {f : β → M α Unit} {mid : β → Prop}
     (hx : SpAt (Rel N p) s x mid) (hf : ∀ a, mid a → ∀ s1, SpI N p s1 (f a)) : SpI N p s (x >>= f) := by
-  intro hok s' he
-  obtain ⟨a, s1, h1, h2⟩ := bind_ok he
-  obtain ⟨hr, hm⟩ := hx a s1 h1
-  exact (rel_isPre N p).trans hr (hf a hm s1 (hr.ok hok) s' h2)
+  intro hok
+  constructor
+  · intro s' he
+    obtain ⟨a, s1, h1, h2⟩ := bind_ok he
+    obtain ⟨hr, hm⟩ := hx.1 a s1 h1
+    exact (rel_isPre N p).trans hr ((hf a hm s1 (hr.ok hok)).1 s' h2)
+  · intro err he
+    rcases bind_error he with h | ⟨a, s1, h1, h2⟩
+    · exact hx.2 err h
+    · obtain ⟨hr, hm⟩ := hx.1 a s1 h1
+      obtain ⟨s', hr2, he2⟩ := (hf a hm s1 (hr.ok hok)).2 err h2
+      exact ⟨s', (rel_isPre N p).trans hr hr2, he2⟩
 
 omit hN hp hs in
 theorem SpI.intro {s : St α} {x : M α Unit} (h : StOK N p s → SpI N p s x) : SpI N p s x :=
@@ -251,7 +272,9 @@ theorem SpI.intro {s : St α} {x : M α Unit} (h : StOK N p s → SpI N p s x) :
 
 omit hN hp hs in
 theorem SpI.pure {s : St α} : SpI N p s (pure ()) := by
-  intro _ s' he
+  intro _
+  refine ⟨?_, fun err he => by cases he⟩
+  intro s' he
   have : (Except.ok ((), s) : Except LinErr (Unit × St α)) = .ok ((), s') := he
   injection this with h
   injection h with _ h
@@ -259,16 +282,32 @@ theorem SpI.pure {s : St α} : SpI N p s (pure ()) := by
   exact (rel_isPre N p).refl _
 
 omit hN hp hs in
+theorem SpI.fail {s : St α} {e : LinErr} (h : ErrOK s e) : SpI N p s (Lin.fail e) := by
+  intro _
+  refine ⟨fun s' he => (by cases he), ?_⟩
+  intro err he
+  have : (Except.error e : Except LinErr (Unit × St α)) = .error err := he
+  injection this with h1
+  subst h1
+  exact ⟨s, (rel_isPre N p).refl _, h⟩
+
+omit hN hp hs in
 theorem SpI.get_bind {s : St α} {f : St α → M α Unit} (h : SpI N p s (f s)) : SpI N p s (get >>= f) :=
-  fun hok s' he => h hok s' he
+  fun hok => ⟨fun s' he => (h hok).1 s' he, fun err he => (h hok).2 err he⟩
 
 omit hN hp hs in
 theorem SpI.set_bind {s s2 : St α} {f : PUnit → M α Unit} (hr : Rel N p s s2) (h : SpI N p s2 (f PUnit.unit)) :
-    SpI N p s (set s2 >>= f) :=
-  fun hok s' he => (rel_isPre N p).trans hr (h (hr.ok hok) s' he)
+    SpI N p s (set s2 >>= f) := by
+  intro hok
+  constructor
+  · intro s' he
+    exact (rel_isPre N p).trans hr ((h (hr.ok hok)).1 s' he)
+  · intro err he
+    obtain ⟨s', hr2, he2⟩ := (h (hr.ok hok)).2 err he
+    exact ⟨s', (rel_isPre N p).trans hr hr2, he2⟩
 
 theorem drain_spec : ∀ (n : Nat) (s : St α), SpI N p s (drain n)
-  | 0, s => by intro _ s' he; cases he
+  | 0, s => SpI.fail trivial
   | n+1, s => by
     have ih := drain_spec n
     rw [drain.eq_2]
@@ -278,7 +317,7 @@ theorem drain_spec : ∀ (n : Nat) (s : St α), SpI N p s (drain n)
     · exact SpI.pure
     · rename_i c rest hq
       have hc : QOK N p c := hok.1 c (by rw [hq]; simp)
-      refine SpI.set_bind (Rel.of_domain_eq rfl
+      refine SpI.set_bind (Rel.of_domain_eq rfl rfl
         (fun h => ⟨fun c' hc' => h.1 c' (by rw [hq]; simp [hc']), h.2⟩)) ?_
       refine SpI.of_bind (simplifyFlat_sp hs hc.2.1 _) ?_
       intro lhs hlhs s3
@@ -333,15 +372,46 @@ theorem linearizeWith_run {m : Model α} {bounds : BoundsMap α} {domain : List 
     obtain ⟨objExp, s1, h1, hrun⟩ := bind_ok hrun
     obtain ⟨obj, s2, h2, hrun⟩ := bind_ok hrun
     obtain ⟨u, s3, h3, hrun⟩ := bind_ok hrun
-    obtain ⟨hr1, hobjExp⟩ := simplifyFlat_sp (N := N) hs hobj _ _ _ h1
-    obtain ⟨hr2, hobjc⟩ := (linExp_block hN hp).1 _ _ hobjExp _ _ _ h2
+    obtain ⟨hr1, hobjExp⟩ := (simplifyFlat_sp (N := N) hs hobj _).1 _ _ h1
+    obtain ⟨hr2, hobjc⟩ := ((linExp_block hN hp).1 _ _ hobjExp _).1 _ _ h2
     have hok2 : StOK N p s2 := hr2.ok (hr1.ok hok)
-    have hr3 := drain_spec hN hp hs _ s2 hok2 s3 h3
+    have hr3 := (drain_spec hN hp hs _ s2 hok2).1 s3 h3
     have hfin : (Except.ok (assemble m obj s3, s3) : Except LinErr (LinModel α × St α)) = .ok (lm', sfin) := hrun
     injection hfin with hfin
     injection hfin with hlm _
     exact ⟨obj, s3, (rel_isPre N p).trans hr1 ((rel_isPre N p).trans hr2 hr3), hr3.ok hok2, hobjc, hlm.symm⟩
   · cases h
+
+/-- a failing run of `linearizeWith`: the error was raised in a state related to the initial one by `Rel`
+and satisfies `ErrOK` there. -/
+theorem linearizeWith_error {m : Model α} {bounds : BoundsMap α} {domain : List (DomVar α)} {err : LinErr}
+    (hobj : allLits p m.objective = true) (hok : StOK N p (initSt m bounds domain))
+    (h : linearizeWith m bounds domain = .error err) :
+    ∃ s' : St α, Rel N p (initSt m bounds domain) s' ∧ ErrOK s' err := by
+  unfold linearizeWith at h
+  dsimp only at h
+  split at h
+  · cases h
+  · rename_i e hrun
+    injection h with h
+    subst h
+    change (_ : M α (LinModel α)) (initSt m bounds domain) = _ at hrun
+    have hT : ∀ {a b c : St α}, Rel N p a b → Rel N p b c → Rel N p a c := (rel_isPre N p).trans
+    have sp1 := simplifyFlat_sp (N := N) hs hobj (initSt m bounds domain)
+    rcases bind_error hrun with h1 | ⟨objExp, s1, h1, hrun⟩
+    · exact sp1.2 _ h1
+    · obtain ⟨hr1, hobjExp⟩ := sp1.1 _ _ h1
+      have sp2 := fun req => (linExp_block hN hp).1 objExp req hobjExp s1
+      rcases bind_error hrun with h2 | ⟨obj, s2, h2, hrun⟩
+      · obtain ⟨s', hr, he⟩ := (sp2 _).2 _ h2
+        exact ⟨s', hT hr1 hr, he⟩
+      · obtain ⟨hr2, _⟩ := (sp2 _).1 _ _ h2
+        have hok2 : StOK N p s2 := hr2.ok (hr1.ok hok)
+        have sp3 := drain_spec hN hp hs drainFuel s2 hok2
+        rcases bind_error hrun with h3 | ⟨u, s3, h3, hrun⟩
+        · obtain ⟨s', hr, he⟩ := sp3.2 _ h3
+          exact ⟨s', hT hr1 (hT hr2 hr), he⟩
+        · cases hrun
 
 end lower
 
